@@ -73,7 +73,16 @@ def work(ident, prop, tier, tree):
         repo = Repo(tree)
         timeout = 20000 if tier == "quick" else 60000
         res = K.verify(k, repo)
-        out = {"ident": ident, "error": res.error, "paths": res.n_paths, "aux_paths": res.n_aux,
+        bounded = None
+        if res.error and res.error.startswith("unsupported") and k.generic_replay:
+            # the function (as it is now) is outside the verifier's reach: bounded stand-in, never counted as proof
+            from pyvc import replaygen
+            try:
+                bounded = replaygen.bounded_check(k, tree, count=40 if tier == "quick" else 200,
+                                                  seed=int(os.environ.get("VERIF_SEED", "0") or 0))
+            except Exception as e:
+                bounded = {"instances": 0, "violations": [], "undecided": 0, "bound": f"bounded stand-in failed: {e}"}
+        out = {"ident": ident, "error": res.error, "bounded": bounded, "paths": res.n_paths, "aux_paths": res.n_aux,
                "infeasible": res.n_infeasible, "loops": res.loops, "seconds": 0, "obligations": [],
                "functions": [], "canaries": [], "assumptions": list(k.assumptions)}
         for q, fi in res.functions.items():
@@ -127,7 +136,7 @@ def work(ident, prop, tier, tree):
         return out
     except Exception as e:
         return {"ident": ident, "error": "crash: " + "".join(traceback.format_exception(type(e), e, e.__traceback__))[-3000:],
-                "paths": 0, "aux_paths": 0, "infeasible": 0, "loops": {}, "seconds": round(time.time() - t0, 3),
+                "bounded": None, "paths": 0, "aux_paths": 0, "infeasible": 0, "loops": {}, "seconds": round(time.time() - t0, 3),
                 "obligations": [], "functions": [], "canaries": [], "assumptions": []}
 
 
@@ -246,6 +255,22 @@ def main(argv=None):
         tail = "" if rep.get("reproduced") else " no-failing-input-found"
         viol_lines.append(f"VIOLATION property={prop} replay={path}{tail}")
         lines.append(f"  failed obligation {o['id']} (path {o['path'] or '-'}): {rep.get('detail', '')[:300]}")
+    # bounded stand-ins of contracts whose function is outside the verifier's reach
+    for r in results:
+        b = r.get("bounded")
+        if b and b["violations"]:
+            n_viol += 1
+            v = b["violations"][0]
+            h = hashlib.sha1((r["ident"] + "bounded").encode()).hexdigest()[:10]
+            path = os.path.join("replays", f"{prop}_{h}.json")
+            json.dump({"property": prop, "obligation": r["ident"] + "/bounded-stand-in", "tree": tree,
+                       "solver": {"status": "not applicable: " + r["error"]},
+                       "witness": {"driver": "generic", "qualname": r["ident"].split("[")[0], "contract": r["ident"],
+                                   "kwargs": v["kwargs"]},
+                       "replay": {"reproduced": True, "detail": v["detail"]}, "bounded": b["bound"]},
+                      open(os.path.join(ROOT, path), "w"), indent=1)
+            viol_lines.append(f"VIOLATION property={prop} replay={path}")
+            lines.append(f"  bounded stand-in for {r['ident']} (verifier: {r['error'][:120]}): {v['detail'][:300]}")
     for ln in lines:
         print(ln)
     for ln in viol_lines:
@@ -290,6 +315,8 @@ def main(argv=None):
                 "canaries_refuted": sum(1 for r in results for cn in r["canaries"] if cn["refuted"] > 0),
                 "canaries": [dict(cn, contract=r["ident"]) for r in results for cn in r["canaries"]],
                 "undecided": [o["id"] for _, o in unknown],
+                "bounded_standins": [dict(contract=r["ident"], reason=r["error"][:200], **{k_: v for k_, v in r["bounded"].items() if k_ != "violations"},
+                                          violations=len(r["bounded"]["violations"])) for r in results if r.get("bounded")],
                 "not_decided_clauses": trusted.not_decided(prop),
                 "tree": tree,
             },
